@@ -1,6 +1,8 @@
 package happs
 
 import (
+	"strings"
+
 	"github.com/cosmos/cosmos-sdk/codec"
 	codectypes "github.com/cosmos/cosmos-sdk/codec/types"
 	sdk "github.com/cosmos/cosmos-sdk/types"
@@ -123,7 +125,9 @@ func (m *mtModel) BurnMT(ctx sdk.Context, denomID, mtID string, amount uint64, o
 	return nil
 }
 
-func (m *mtModel) HasMT(ctx sdk.Context, denomID, mtID string) bool { return m.supply(denomID, mtID) != nil }
+func (m *mtModel) HasMT(ctx sdk.Context, denomID, mtID string) bool {
+	return m.supply(denomID, mtID) != nil
+}
 
 type modelMT struct{ s *mtBal }
 
@@ -180,9 +184,10 @@ func (c *mtChain) give(class, id, owner string, amount uint64) {
 }
 
 func (c *mtChain) voucherFor(path string) string {
-	tr := types.ParseClassTrace(path)
-	c.k.SetClassTrace(c.ctx, tr)
-	return tr.IBCClass()
+	// reference reading of the path, independent of types.ParseClassTrace (see refTrace in nft.go)
+	i := strings.LastIndex(path, "/")
+	c.k.SetClassTrace(c.ctx, types.ClassTrace{Path: path[:i], BaseClass: path[i+1:]})
+	return refVoucher(path)
 }
 
 const hexClass = "c0ffee" // native MT class ids are module-generated hex strings
@@ -278,7 +283,7 @@ func H_C05_recv() {
 	if class != hexClass {
 		newPath = "mt/" + self + "/" + src + "/" + self + "/" + hexClass
 	}
-	v := types.ParseClassTrace(newPath).IBCClass()
+	v := refVoucher(newPath)
 	vSupply0 := vp.Uint64("voucher.supply.before")
 	if vp.Bool("voucher.exists") {
 		c.give(v, id, alice, vSupply0)
@@ -380,7 +385,7 @@ func H_C05_conservation() {
 	vp.Assume(a.k.SendMtTransfer(a.ctx, hexClass, id, addr(alice), bob, nB, "", "", x) == nil)
 	ack := deliverMT(b, a.pk.sent[0])
 	vp.Assume(ack != nil && !ackIsError(ack))
-	vB := types.ParseClassTrace("mt/" + nA + "/" + nB + "/" + hexClass).IBCClass()
+	vB := refVoucher("mt/" + nA + "/" + nB + "/" + hexClass)
 	vp.Assert(a.mt.balanceOf(hexClass, id, escrow) == b.mt.supplyOf(vB, id), "C05.2 units locked in escrow equal the voucher units in circulation (after a transfer)")
 	vp.Assert(a.mt.balanceOf(hexClass, id, alice)+b.mt.balanceOf(vB, id, bob) == minted, "C05.2 user-held units over all chains equal what was minted (after a transfer)")
 	y := vp.Uint64("return.transfer")
